@@ -69,7 +69,7 @@ def run(ctx):
         seeds = [ctx.seed] if q else [ctx.seed, ctx.seed + 1000, ctx.seed + 2000]
         for s in seeds:
             t = os.path.join(ctx.work, "opts-%d.ndjson" % s)
-            rc, out = lib.run_driver(exe, ["opts", t, scratch, 300 if q else 2500], env={"VERIF_SEED": str(s)}, timeout=900, allow_fail=True)
+            rc, out = lib.run_driver(exe, ["opts", t, scratch, 300 if q else 2000], env={"VERIF_SEED": str(s)}, timeout=900, allow_fail=True)
             traces.append(t)
         t = os.path.join(ctx.work, "orders.ndjson")
         lib.run_driver(exe, ["orders", t, scratch, 4 if q else 6], env={"VERIF_SEED": str(ctx.seed)}, timeout=900, allow_fail=True)
